@@ -60,6 +60,12 @@ def cases(rng, budget, widx, nworkers, tier):
                     a, b = (a, b2) if rng.random() < 0.7 else (b2, a)      # strictly nested, off-centre, no surface contact
         elif ka in ("PG", "PH") and kb in ("PG", "PH") and rng.random() < 0.25:
             (a, b), _lab = gen.body_pair(rng, ka, kb, small=True)      # labelled relative positions incl. strictly nested / small integer boxes
+        if (ka in gen.FLAT) != (kb in gen.FLAT) and rng.random() < 0.06:
+            # hits / section ends at a coordinate -1 against -2 (the values CPython hashes alike)
+            f_, body_ = (ka, kb) if ka in gen.FLAT else (kb, ka)
+            x = gen.slab_flat_vs_body(rng, f_, body_)
+            if x is not None:
+                a, b = x if ka in gen.FLAT else (x[1], x[0])
         K.reset()
         try:
             ab = K.as_body(K.inter(a, b))
